@@ -97,6 +97,11 @@ def oracle_c04(tr: Trace):
                     raise Failure(f"C04 ACK(Finished) did not end the Finished positive-ACK procedure (op {st.i})")
                 silent_expiries = 0
                 continue
+            if st.pdu is not None and st.pdu["kind"] == codec.K_EOF:
+                # a re-sent EOF is acknowledged again (CFDP 4.7.2); the Finished procedure is neither advanced nor reset
+                if not any(g["kind"] == codec.K_ACK and g["acked"] == 4 for g in got) or f["ack_counter"] != pf["ack_counter"]:
+                    raise Failure(f"C04 receiver did not simply re-acknowledge a re-sent EOF while waiting for the Finished ACK (op {st.i})")
+                continue
             expired = now - pf["ack_timer_start"] >= pf["ack_timer_ms"]
             fins = [g for g in got if g["kind"] == codec.K_FIN]
             limit_fault = [e for e in evs if e[0] in (11, 12, 13, 14) and (e[3] == 1 or e[0] == 14)]
